@@ -52,6 +52,7 @@ fn main() {
         ["c08", "replay", path] => c08::replay(path),
         ["c08", "record", runs, path] => c08::record(runs.parse().unwrap(), path),
         ["c12", "replay", path] => c12::replay(path),
+        ["c01", "commitprobe", path] => codec::commit_probe(path),
         ["c01", "replay", path] => codec::replay_c01(path),
         ["c01", "record", runs, path] => codec::record_c01(runs.parse().unwrap(), path),
         ["c02", "record", runs, path] => codec::record_c02(runs.parse().unwrap(), path),
@@ -65,6 +66,7 @@ fn main() {
         ["c14", "noncodes", n, path] => c14::noncodes(n.parse().unwrap(), path),
         ["c06", "record", runs, path] => c06::record(runs.parse().unwrap(), path),
         ["c16", "replay", path] => c16::replay(path),
+        ["c16", "sort", runs, path] => c16::record_sort(runs.parse().unwrap(), path),
         ["c20", "deepgen", shape, n, path] => c20::deepgen(shape, n.parse().unwrap(), path),
         ["c20", "deepdec", path, place] => c20::deepdec(path, *place == "thread"),
         ["c20", "deepbuild", shape, n, place] => c20::deepbuild(shape, n.parse().unwrap(), *place == "thread"),
